@@ -129,7 +129,7 @@ theorem parseOffset_of_valueOf (relaxed : Bool) (v : Bytes) (n : Int) (h : value
     rw [hv, hn, List.append_assoc]; exact hk
 
 theorem parseOffset_natToDec (n : Nat) (hfit : n ≤ 9223372036854775807) : ∃ k, parseOffset (natToDec n) = some ((n : Int), k) := by
-  obtain ⟨hne, hall, hval⟩ := natToDec_spec n
+  obtain ⟨hne, hall, hval, _⟩ := natToDec_spec n
   cases hd : natToDec n with
   | nil => exact absurd hd hne
   | cons d ds =>
@@ -238,7 +238,7 @@ theorem finish_plain (cfg : Cfg) (raw es : List Entry) (cl : ClState)
           simp [isCl]
         · rw [List.filter_append, filter_isCl_delById]; simp [isCl]
         · obtain ⟨hv0, hv1⟩ := hshape.1 hg
-          obtain ⟨hne, hall, hval⟩ := natToDec_spec cl.value.toNat
+          obtain ⟨hne, hall, hval, _⟩ := natToDec_spec cl.value.toNat
           intro e he
           rw [List.filter_append, filter_isCl_delById] at he
           simp only [List.nil_append, isCl, BEq.rfl, List.filter_cons_of_pos, List.filter_nil, List.mem_singleton] at he
